@@ -242,26 +242,6 @@ impl GqlTranslator {
             }
         }
 
-        // Apply SKIP
-        if let Some(skip_expr) = &query.return_clause.skip
-            && let ast::Expression::Literal(ast::Literal::Integer(n)) = skip_expr
-        {
-            plan = LogicalOperator::Skip(SkipOp {
-                count: *n as usize,
-                input: Box::new(plan),
-            });
-        }
-
-        // Apply LIMIT
-        if let Some(limit_expr) = &query.return_clause.limit
-            && let ast::Expression::Literal(ast::Literal::Integer(n)) = limit_expr
-        {
-            plan = LogicalOperator::Limit(LimitOp {
-                count: *n as usize,
-                input: Box::new(plan),
-            });
-        }
-
         // Check if RETURN contains aggregate functions
         let has_aggregates = query
             .return_clause
@@ -313,6 +293,9 @@ impl GqlTranslator {
                 });
             }
 
+            // SKIP and LIMIT select rows of the ordered (and aggregated) result
+            plan = Self::apply_skip_limit(&query.return_clause, plan);
+
             // Note: For aggregate queries, we don't add a Return operator
             // because Aggregate already produces the final output
         } else {
@@ -338,6 +321,9 @@ impl GqlTranslator {
                 });
             }
 
+            // SKIP and LIMIT select rows of the ordered (and aggregated) result
+            plan = Self::apply_skip_limit(&query.return_clause, plan);
+
             // Apply RETURN
             let return_items = query
                 .return_clause
@@ -359,6 +345,34 @@ impl GqlTranslator {
         }
 
         Ok(LogicalPlan::new(plan))
+    }
+
+    /// Wraps `plan` in the SKIP and LIMIT of the RETURN clause.
+    fn apply_skip_limit(
+        return_clause: &ast::ReturnClause,
+        mut plan: LogicalOperator,
+    ) -> LogicalOperator {
+        // Apply SKIP
+        if let Some(skip_expr) = &return_clause.skip
+            && let ast::Expression::Literal(ast::Literal::Integer(n)) = skip_expr
+        {
+            plan = LogicalOperator::Skip(SkipOp {
+                count: *n as usize,
+                input: Box::new(plan),
+            });
+        }
+
+        // Apply LIMIT
+        if let Some(limit_expr) = &return_clause.limit
+            && let ast::Expression::Literal(ast::Literal::Integer(n)) = limit_expr
+        {
+            plan = LogicalOperator::Limit(LimitOp {
+                count: *n as usize,
+                input: Box::new(plan),
+            });
+        }
+
+        plan
     }
 
     /// Builds return items for an aggregate query.
